@@ -31,7 +31,19 @@ func genUnmarshalCases(r *rng, n int, emit func(string, ...string), forceOpts fu
 		fault := false
 		var data []byte
 		truth := ""
-		switch k := sub.intn(10); {
+		switch k := sub.intn(11); {
+		case k == 10: // a warc-fields block (warcinfo / metadata) that is itself damaged, with and without the block repair
+			for tries := 0; tries < 40 && g.rtype != "warcinfo" && g.rtype != "metadata"; tries++ {
+				g = genRecord(sub)
+			}
+			g.block = []byte(pick(sub, []string{"a: b\r\n c", "a: b\r\n\tcont", "no colon line\r\n", "no colon", "", "\r\n", " leading continuation\r\n",
+				"a: b\n", "a: b\r\nc", "x", ":\r\n", "a: =?utf-8?q?=ZZ?=\r\n", "a: b\r\n\r\nafter: end\r\n", "\x00\xff: \x01\r\n", "a: b\r\n \r\n", "\t\r\n",
+				"x\r\n\rfoo", "a: b\r\n\r", "nocolon\r\n\rX\r\n", "a b\n\nrest", "x\n\nyyy\n"}))
+			o.fixwf = sub.chance(2, 3)
+			o.blk = sub.intn(3)
+			g.declare(sub, false)
+			data = g.serialize()
+			stat("unm-class", "wf-damaged")
 		case k < 3: // clean record with truthful or wrong declarations
 			g.declare(sub, true)
 			data = g.serialize()
